@@ -12,33 +12,40 @@ EXTENDS Integers, Sequences, TLC, Json, IOUtils
 
 Trace == ndJsonDeserialize(IOEnv.KB_TRACE)
 
-VARIABLES l, first, lens, viol
-vars == <<l, first, lens, viol>>
+\* start: trace line of the first response of the first engine that ran the current history (0: none yet)
+\* n1:    number of responses of that engine (-1 until it is done)
+\* (the first transcript is read back from the trace itself, so a state stays small however long it is)
+VARIABLES l, start, n1, viol
+vars == <<l, start, n1, viol>>
 
 E == Trace[l]
 Is(e) == l <= Len(Trace) /\ E.e = e
+Bad == IF viol = {} THEN {<<"EnginesAgree", l>>} ELSE viol
 
-TInit == l = 1 /\ first = << >> /\ lens = {} /\ viol = {}
+TInit == l = 1 /\ start = 0 /\ n1 = -1 /\ viol = {}
 
-\* first: sequence of transcript lines of the first engine that ran the history
 TResp ==
     /\ Is("Resp") /\ l' = l + 1
-    /\ IF E.i > Len(first)
-       THEN /\ first' = IF E.i = Len(first) + 1 /\ lens = {} THEN Append(first, E.r) ELSE first
-            /\ viol' = IF lens # {} /\ viol = {} THEN {<<"EnginesAgree", l>>} ELSE viol
-       ELSE /\ first' = first
-            /\ viol' = IF first[E.i] # E.r /\ viol = {} THEN {<<"EnginesAgree", l>>} ELSE viol
-    /\ UNCHANGED lens
+    /\ IF n1 = -1
+       THEN \* the first engine: its i-th response is at line start + i - 1
+            /\ start' = IF start = 0 THEN l ELSE start
+            /\ viol' = IF E.i = l - (IF start = 0 THEN l ELSE start) + 1 THEN viol ELSE Bad
+       ELSE /\ start' = start
+            /\ viol' = IF E.i >= 1 /\ E.i <= n1 /\ Trace[start + E.i - 1].r = E.r THEN viol ELSE Bad
+    /\ UNCHANGED n1
 
 TDone ==
     /\ Is("Done") /\ l' = l + 1
-    /\ lens' = lens \cup {E.n}
-    /\ viol' = IF E.n # Len(first) /\ viol = {} THEN {<<"EnginesAgree", l>>} ELSE viol
-    /\ UNCHANGED first
+    /\ IF n1 = -1
+       THEN /\ n1' = E.n
+            /\ viol' = IF (start = 0 /\ E.n = 0) \/ (start > 0 /\ E.n = l - start) THEN viol ELSE Bad
+       ELSE /\ n1' = n1
+            /\ viol' = IF E.n = n1 THEN viol ELSE Bad
+    /\ UNCHANGED start
 
 TReset ==
     /\ Is("Reset") /\ l' = l + 1
-    /\ first' = << >> /\ lens' = {}
+    /\ start' = 0 /\ n1' = -1
     /\ UNCHANGED viol
 
 TNext == TResp \/ TDone \/ TReset
